@@ -142,4 +142,17 @@ theorem src_constraint_maps (x β : ℝ) :
     ∧ M.Src.sig_c_softplus x β = softplusT β x ∧ M.Src.sig_c_softplus_inverse x β = softplusInvT β x :=
   ⟨M.SrcL.sig_c_sigmoid_eq x β, M.SrcL.sig_c_sigmoid_inverse_eq x β, M.SrcL.sig_c_softplus_eq x β, M.SrcL.sig_c_softplus_inverse_eq x β⟩
 
+/-- the branches of `ConstraintsOp.forward` and `inverse` as coded (translated from `/repo` on this run; they call the generated
+elementary maps) are `constrainFwd` / `constrainInv` for finite two-sided, lower-only, upper-only and absent bounds … -/
+theorem src_constraint_forward (βs βp l u x : ℝ) :
+    M.Src.constr_forward_both x l u βs = constrainFwd βs βp (.fin l) (.fin u) x ∧
+    M.Src.constr_forward_lower x l βp = constrainFwd βs βp (.fin l) .none x ∧
+    M.Src.constr_forward_upper x u βp = constrainFwd βs βp .none (.fin u) x ∧
+    M.Src.constr_forward_none x = constrainFwd βs βp .none .none x := M.SrcL.constr_forward_eq βs βp l u x
+theorem src_constraint_inverse (βs βp l u y : ℝ) :
+    M.Src.constr_inverse_both y l u βs = constrainInv βs βp (.fin l) (.fin u) y ∧
+    M.Src.constr_inverse_lower y l βp = constrainInv βs βp (.fin l) .none y ∧
+    M.Src.constr_inverse_upper y u βp = constrainInv βs βp .none (.fin u) y ∧
+    M.Src.constr_inverse_none y = constrainInv βs βp .none .none y := M.SrcL.constr_inverse_eq βs βp l u y
+
 end C17
